@@ -280,7 +280,7 @@ impl C06 {
         let mut rng = ctx.rng(k);
         let w = match rng.usize(4) {
             0 => *rng.pick(&[63, 64, 65, 127, 128, 129, 1, 2]),
-            1 if self.sampled => *rng.pick(&[6, 7]),
+            1 if self.sampled => 7,
             _ => rng.range(1, 200) as i32,
         };
         let h = 1 + rng.usize(30);
@@ -363,17 +363,17 @@ impl Prop for C06 {
         "C06"
     }
     fn rule(&self) -> &'static str {
-        "rows are independent in XBin compression (the run state resets per row), so exhaustive rows are packed 4096 per buffer: ALL rows of width 1..=7 over 3 characters x 3 attributes x 2 font pages (thorough; quick: widths 1..=5 completely plus a seeded sample of widths 6/7) and all rows of width 1..=10 over a 2x2 alphabet; plus seeded random buffers of width 1..=200 x height 1..=30 from small and full alphabets, one or two fonts, blink or ice, widths 63/64/65/127/128/129 forced. Oracles: (1) a strict decoder written from doc/FileFormats/x_bin.htm applied to Buffer::to_bytes(\"xb\", compress) - every run 1..=64 cells, no run crosses a row, every row decodes to exactly the width, no trailing bytes, decoded (char, attribute incl. font-page bit) == source; (2) engine loader: compressed == uncompressed == source per cell incl. font page. distinct_nontrivial = distinct sampled (block, row) of the exhaustive part and (width, class, first cells) of the random part"
+        "rows are independent in XBin compression (the run state resets per row), so exhaustive rows are packed 4096 per buffer: ALL rows of width 1..=7 over 3 characters x 3 attributes x 2 font pages (thorough; quick: widths 1..=6 completely plus a seeded sample of width 7) and all rows of width 1..=10 over a 2x2 alphabet; plus seeded random buffers of width 1..=200 x height 1..=30 from small and full alphabets, one or two fonts, blink or ice, widths 63/64/65/127/128/129 forced. Oracles: (1) a strict decoder written from doc/FileFormats/x_bin.htm applied to Buffer::to_bytes(\"xb\", compress) - every run 1..=64 cells, no run crosses a row, every row decodes to exactly the width, no trailing bytes, decoded (char, attribute incl. font-page bit) == source; (2) engine loader: compressed == uncompressed == source per cell incl. font page. distinct_nontrivial = distinct sampled (block, row) of the exhaustive part and (width, class, first cells) of the random part"
     }
     fn meta(&self, ctx: &Ctx) -> Value {
         json!({"floor_evaluations": 200, "floor_distinct": ctx.tier.pick(1000u64, 5000u64),
                "exhaustive": false,
-               "exhaustive_part": if ctx.tier == crate::ctx::Tier::Thorough { "all 18^w rows for w=1..=7 and all 4^w rows for w=1..=10 enumerated completely" } else { "all 18^w rows for w=1..=5 and all 4^w rows for w=1..=10 enumerated completely; w=6,7 sampled" },
+               "exhaustive_part": if ctx.tier == crate::ctx::Tier::Thorough { "all 18^w rows for w=1..=7 and all 4^w rows for w=1..=10 enumerated completely" } else { "all 18^w rows for w=1..=6 and all 4^w rows for w=1..=10 enumerated completely; w=7 sampled" },
                "assumptions": ["in 512-character mode the foreground is limited to 0..=7 (bit 3 of the attribute selects the font)"]})
     }
     fn total(&mut self, ctx: &Ctx) -> u64 {
         self.blocks.clear();
-        let maxw = ctx.tier.pick(5usize, 7usize);
+        let maxw = ctx.tier.pick(6usize, 7usize);
         self.sampled = maxw < 7;
         for w in 1..=maxw {
             let n = 18u64.pow(w as u32);
@@ -393,7 +393,7 @@ impl Prop for C06 {
                 first += c;
             }
         }
-        self.blocks.len() as u64 + ctx.tier.pick(4_000, 300_000)
+        self.blocks.len() as u64 + ctx.tier.pick(16_000, 300_000)
     }
     fn run_case(&mut self, ctx: &mut Ctx, k: u64) {
         let case = self.case_for(ctx, k);
